@@ -188,9 +188,11 @@ def install(I, AP):
             # the bitwise chiplet rejects non-u32 operands: decided when an operand is a constant, forked otherwise
             consts = [x.const_value() if isinstance(x, Poly) else (x if isinstance(x, int) else None) for x in (a[1], a[2])]
             bad = [x for x, c_ in zip((a[1], a[2]), consts) if c_ is not None and c_ >= 2 ** 32]
+            # operands known to be below 2^32 (constants, halves of a split, masked values)
+            small = [c_ is not None and c_ < 2 ** 32 or (isinstance(x, Poly) and _ms.int_range(Term("as_int", x))[1] < 2 ** 32) for x, c_ in zip((a[1], a[2]), consts)]
             if bad:
                 c = 1
-            elif all(c_ is not None for c_ in consts):
+            elif all(small):
                 c = 0
             else:
                 c = I.fork.choose(("chiplet", name), 2, Term("u32pair", repr(a[1]), repr(a[2]))) if I.fork else 0
